@@ -276,6 +276,10 @@ M = [
  dict(name="const_monty_random_full_width", prop="C19", file="src/modular/const_monty_form.rs",
       old="        Ok(Self::new(&Uint::try_random_mod(\n            rng,\n            MOD::MODULUS.as_nz_ref(),\n        )?))", new="        Ok(Self::new(&Uint::try_random(rng)?))",
       expect="c19.route|<modular::const_monty_form::ConstMontyForm<_> as traits::Random>::try_random"),
+ # --- c11.docpanic crate-wide (reverse of repo fix 5066ab8 seen through C11)
+ dict(name="boxed_adc_assign_debug_only_c11", prop="C11", file="src/uint/boxed/add.rs",
+      old="        assert!(\n            self.bits_precision() >= (rhs.as_ref().len() as u32 * Limb::BITS),", new="        debug_assert!(\n            self.bits_precision() >= (rhs.as_ref().len() as u32 * Limb::BITS),",
+      expect="c11.docpanic|uint::boxed::add::<impl uint::boxed::BoxedUint>::adc_assign"),
 ]
 
 def main():
